@@ -6,7 +6,7 @@ Only imported under python3-vt (needs z3).  Replays use concrete.py instead.
 import time
 import z3
 
-from .common import PathAbort, PathEnd, HarnessError, Unsupported, Stats
+from .common import PathAbort, PathEnd, HarnessError, Unsupported, Unmodelled, Stats
 
 
 class _Memo:
@@ -566,6 +566,10 @@ class Engine:
             self.stats.paths_aborted += 1
         except PathEnd:
             self.stats.paths_completed += 1
+        except (Unsupported, Unmodelled) as e:
+            # a modelling gap on this path only: no verdict for the path, the exploration goes on (exit 3 unless a
+            # replayed counterexample turns up elsewhere)
+            self.note('inconclusive-path: %s: %s' % (type(e).__name__, str(e)[:100]))
         finally:
             self.solver.pop()
         self.stats.paths += 1
@@ -593,8 +597,19 @@ class Engine:
             Engine.cur = self
             self.xchecks += 1
             if ce.failures:
-                raise HarnessError('concolic cross-check failed (proxy/engine bug?): %r with model %r'
-                                   % (ce.failures[:2], {k: v for k, v in list(model.items())[:40]}))
+                # the symbolic run passed, the concrete run of the same path on the model fails: either a proxy / model
+                # inaccuracy or a real counterexample the symbolic semantics missed.  Never a verdict by itself: the
+                # runner replays it on the real OS (reproduced -> violation, otherwise inconclusive).
+                fl = ce.failures[0]
+                key = tuple(str(x) for x in fl['sig']) + ('concolic',)
+                rec = self.violations.get(key)
+                if rec is None:
+                    rec = self.violations[key] = {
+                        'check': fl['check'], 'sig': list(fl['sig']), 'count': 0, 'info': fl.get('info'), 'model': model,
+                        'path_info': dict(self.path_info),
+                        'origin': 'concolic cross-check: holds on the symbolic path, fails for its concrete model instance'}
+                rec['count'] += 1
+                self.note('concolic-divergence')
 
     def explore(self, harness, max_paths=None, deadline=None):
         Engine.cur = self
